@@ -139,8 +139,13 @@ fn build(req: &Value) -> Value {
     let gens: Vec<DVec3> = req["gens"].as_array().unwrap().iter().map(v3).collect();
     let d = dim(&req["dim"]);
     let periodic = req["periodic"].as_bool().unwrap_or(false);
+    let integrator = req["route"].as_str() == Some("integrator");
     let r = std::panic::catch_unwind(|| {
-        if let Some(mask) = req["mask"].as_array() {
+        if integrator {
+            let m: Option<Vec<bool>> = req["mask"].as_array().map(|mask| mask.iter().map(|b| b.as_bool().unwrap()).collect());
+            let vi = meshless_voronoi::VoronoiIntegrator::build(&gens, m.as_deref(), v3(&req["anchor"]), v3(&req["width"]), d, periodic);
+            Voronoi::from(&vi)
+        } else if let Some(mask) = req["mask"].as_array() {
             let m: Vec<bool> = mask.iter().map(|b| b.as_bool().unwrap()).collect();
             Voronoi::build_partial(&gens, &m, v3(&req["anchor"]), v3(&req["width"]), d, periodic)
         } else {
